@@ -37,9 +37,10 @@ Speak(start, end, p1, cc, tok, comb) ==
 Other(start, end) ==
     [speak |-> FALSE, start |-> start, end |-> end, p1 |-> "x", cc_type |-> "", cc_token |-> "", combined |-> FALSE]
 SceneTable ==
-    [s1 |-> <<Speak(0, 2000, "vo.a", "Master", "", FALSE), Other(500, 0 - 1), Other(250, 2500)>>,
-     s2 |-> <<Speak(125, 0 - 1, "vo.b", "Slave", "tok.b", TRUE), Speak(0, 1500, "vo.c", "Disabled", "tok.c", FALSE),
-              Speak(250, 750, "vo.a", "Slave", "", FALSE)>>,
+    \* ({e9} {df} {ff}: Latin-1 letters - the pool of a scenes.image is Latin-1)
+    [s1 |-> <<Speak(0, 2000, "vo.caf{e9}", "Master", "", FALSE), Other(500, 0 - 1), Other(250, 2500)>>,
+     s2 |-> <<Speak(125, 0 - 1, "vo.b", "Slave", "tok.stra{df}e", TRUE), Speak(0, 1500, "vo.c", "Disabled", "tok.c", FALSE),
+              Speak(250, 750, "vo.caf{e9}", "Slave", "", FALSE), Speak(0, 125, "{ff}.wav", "Master", "", FALSE)>>,
      s3 |-> <<>>]
 SceneIds == IF Small THEN {"s1", "s2"} ELSE DOMAIN SceneTable
 ASSUME Machine # "image" \/ PrintT(ToJson([tag |-> "CONSTS", scenes |-> SceneTable, rank |-> Rank]))
@@ -61,10 +62,12 @@ Rename(k, k2) == /\ img[k].here /\ img[k].cur # k2
                  /\ UNCHANGED slots
                  /\ act' = [op |-> "rename", k |-> k, to |-> k2]
 \* the entries are handed over as the dictionary itself or as a list of its values
-Save(slot, ver, how) == /\ DistinctCur(img)
+\* ... and with the encoding argument left out, or given as what it defaults to
+Encs == IF Small THEN {"default"} ELSE {"default", "latin1"}
+Save(slot, ver, how, enc) == /\ DistinctCur(img)
                         /\ slots' = [slots EXCEPT ![slot] = SaveFile(img, Rank, ver)]
                         /\ UNCHANGED img
-                        /\ act' = [op |-> "save", slot |-> slot, ver |-> ver, how |-> how]
+                        /\ act' = [op |-> "save", slot |-> slot, ver |-> ver, how |-> how, enc |-> enc]
 Load(slot) == /\ slots[slot].ver # 0
               /\ img' = LoadFile(slots[slot], Keys)
               /\ UNCHANGED slots
@@ -83,7 +86,7 @@ ImgNext == /\ n < MaxOps
               \/ \E s \in SceneIds : Add("k1", 2, s)
               \/ \E k \in Keys : Drop(k) \/ Touch(k)
               \/ \E k, k2 \in Keys : Rename(k, k2)
-              \/ \E slot \in Slots, ver \in {2, 3}, how \in {"dict", "list"} : Save(slot, ver, how)
+              \/ \E slot \in Slots, ver \in {2, 3}, how \in {"dict", "list"}, enc \in Encs : Save(slot, ver, how, enc)
               \/ \E slot \in Slots : Load(slot) \/ Merge(slot)
            /\ UNCHANGED <<case, done>>
 
@@ -124,7 +127,11 @@ CmdCases ==
           OneSeq(Rep("n", 129), <<>>),
           OneSeq("X", <<Cmd(Rep("e", 261), 0, "", TRUE, FALSE, "", TRUE, FALSE)>>),
           OneSeq("X", <<Cmd("e", 0, Rep("a", 261), TRUE, FALSE, "", TRUE, FALSE)>>),
-          OneSeq("X", <<Cmd("e", 0, "", TRUE, TRUE, Rep("f", 261), TRUE, FALSE)>>)}
+          OneSeq("X", <<Cmd("e", 0, "", TRUE, TRUE, Rep("f", 261), TRUE, FALSE)>>),
+          \* not ASCII: must be refused as well
+          OneSeq("caf{e9}", <<>>), OneSeq("X", <<Cmd("caf{e9}.exe", 0, "", TRUE, FALSE, "", TRUE, FALSE)>>),
+          OneSeq("X", <<Cmd("e", 0, "-o {20ac}", TRUE, FALSE, "", TRUE, FALSE)>>),
+          OneSeq("X", <<Cmd("e", 0, "", TRUE, TRUE, "stra{df}e.bsp", TRUE, FALSE)>>)}
 
 \* ---- choreo scenes
 Curve0 == [ramp |-> <<>>, left |-> NoEdge, right |-> NoEdge]
@@ -146,7 +153,9 @@ Feats == {"base", "end", "params3", "flags0", "flags63", "flags_lock", "ramp2", 
           "flex_combo", "flex_range", "dcurve", "pitchyaw", "odd_name", "gesture_dur", "loops", "cc_slave",
           "cc_disabled_combined", "cc_token", "cc_flags",
           \* single flag bits, one edge only, several optional blocks at once
-          "flag1", "flag2", "flag4", "flag16", "flag32", "right_edge", "all_tags", "tag_flex", "all"}
+          "flag1", "flag2", "flag4", "flag16", "flag32", "right_edge", "all_tags", "tag_flex", "all",
+          \* strings outside ASCII: Latin-1 letters, and characters beyond U+00FF
+          "latin1", "wide"}
 S1 == <<"0.25", "1.0", "DEFAULT", "DEFAULT">>
 S2 == <<"0.75", "0.2", "DEFAULT", "DEFAULT">>
 S3 == <<"1.5", "0.0", "EASE_IN", "HOLD">>
@@ -183,6 +192,12 @@ Vary(e, f) ==
       [] f = "cc_disabled_combined" -> IF e.type = "Speak" THEN [e EXCEPT !.cc_type = "Disabled", !.combined = TRUE] ELSE e
       [] f = "cc_token" -> IF e.type = "Speak" THEN [e EXCEPT !.cc_token = "tok.en"] ELSE e
       [] f = "cc_flags" -> IF e.type = "Speak" THEN [e EXCEPT !.gender = TRUE, !.noatten = TRUE, !.combined = TRUE] ELSE e
+      [] f = "latin1" -> [e EXCEPT !.name = "caf{e9} stra{df}e", !.params = <<"d{e9}j{e0} vu", "{ff}", "">>, !.tag = <<"t{e9}g", "w{e4}v">>,
+                                   !.rel = <<<<"r{e9}l", "0.2">>>>,
+                                   !.cc_token = IF e.type = "Speak" THEN "tok.{e9}" ELSE @]
+      [] f = "wide" -> [e EXCEPT !.name = "{20ac}uro {3a9}", !.params = <<"{4e2d}{6587}", "", "{1f600}">>,
+                                 !.absp = <<<<"{3a9}", "0.5">>>>,
+                                 !.cc_token = IF e.type = "Speak" THEN "tok.{20ac}" ELSE @]
       [] f = "flag1" -> [e EXCEPT !.flags = 9]
       [] f = "flag2" -> [e EXCEPT !.flags = 2]
       [] f = "flag4" -> [e EXCEPT !.flags = 12]
@@ -243,7 +258,7 @@ Snd(sounds, vol, chan, lvl, pitch, force, stacks) ==
 NoStacks == <<<<>>, <<>>, <<>>>>
 Leaf(d, k, v) == <<d, k, v, FALSE>>
 Block(d, k) == <<d, k, "", TRUE>>
-SndSounds == {<<>>, <<"weapons/pistol/fire1.wav">>, <<")weapons/a.wav", "*#music/b c.mp3">>}
+SndSounds == {<<>>, <<"weapons/pistol/fire1.wav">>, <<")weapons/a.wav", "*#music/b c.mp3">>, <<"vo/caf{e9}.wav", "{20ac}/{3a9}.wav">>}
 \* each of the three operator stacks is there or not, independently of the others and of force_v2
 StackStart == {<<>>, <<Block(0, "mixer"), Leaf(1, "mixgroup", "Weapons")>>}
 StackUpdate == {<<>>, <<Leaf(0, "import_stack", "update_default")>>}
@@ -274,7 +289,7 @@ VmtCases ==
                            [] px = 1 -> <<<<"Sine", <<Leaf(0, "min", "0"), Leaf(0, "resultVar", "$selfillumscale[0]")>>>>>>
                            [] px = 2 -> <<<<"AnimatedTexture", <<Leaf(0, "animatedTextureVar", "$basetexture")>>>>, <<"Empty", <<>>>>>>]] :
         sh \in {"LightmappedGeneric", "patch"},
-        pa \in {<<>>, <<<<"$basetexture", "tools/toolsskybox">>>>,
+        pa \in {<<>>, <<<<"$basetexture", "tools/toolsskybox">>>>, <<<<"$basetexture", "caf{e9}/stra{df}e">>, <<"%keywords", "{20ac} {3a9}">>>>,
                 <<<<"$basetexture", "models\\props\\x">>, <<"$alpha", "">>, <<"%keywords", "a b">>, <<"$reflectivity", "[.4 .8 .12]">>>>,
                 <<<<"$Mixed Case", "{brace}">>, <<"include", "materials/x.vmt">>>>},
         bl \in 0..3, px \in 0..2}
@@ -290,7 +305,7 @@ OneOp == Op("render_sprites", "render_animated_sprites", <<Opt("animation rate",
 PcfCases ==
     {[feat |-> IF opts # <<>> /\ opts[1][1] = "Sort Particles" THEN "option_case" ELSE "plain",
       v |-> [systems |-> <<Sys("sys one", "Sys One", opts, ops, ch)>> \o (IF ch = <<"other">> THEN <<Sys("other", "other", <<>>, NoOps, <<>>)>> ELSE <<>>)]] :
-        opts \in {<<>>, <<Opt("max_particles", "INTEGER", "5")>>, <<Opt("Sort Particles", "BOOL", "0"), Opt("use animation rate as FPS", "BOOL", "1")>>,
+        opts \in {<<>>, <<Opt("max_particles", "INTEGER", "5")>>, <<Opt("material", "STRING", "caf{e9}/{20ac}.vmt")>>, <<Opt("Sort Particles", "BOOL", "0"), Opt("use animation rate as FPS", "BOOL", "1")>>,
                   <<Opt("material", "STRING", "particle/fire.vmt"), Opt("radius", "FLOAT", "0.5"), Opt("sort", "BOOL", "1"),
                     Opt("color", "COLOR", "255 128 0 255"), Opt("bounds", "VEC3", "1 2.5 -3")>>},
         ops \in {[k \in 1..6 |-> IF k = j THEN <<Op("only", "kind " \o ToString(j), <<Opt("x", "INTEGER", ToString(j))>>)>> ELSE <<>>] : j \in 1..6}
@@ -314,10 +329,14 @@ SmdCases ==
                         [] tr = 2 -> <<Tri("m", <<<<b[1][1], "0.5">>, <<b[Len(b)][1], "0.5">>>>)>>
                         [] tr = 3 -> <<Tri("m", <<<<b[1][1], "0.25">>, <<b[Len(b)][1], "0.25">>, <<b[1][1], "0.5">>>>)>>
                         [] tr = 4 -> <<Tri("brick/wall_01", <<<<b[1][1], "1.0">>>>), Tri("brick/wall_01", <<<<b[Len(b)][1], "1.0">>>>),
-                                       Tri("x", <<<<b[1][1], "1.0">>>>)>>]] :
+                                       Tri("x", <<<<b[1][1], "1.0">>>>)>>
+                        \* SMD files are ASCII: a material (5) or bone name (6) outside it must be refused
+                        [] tr = 5 -> <<Tri("m{e9}tal/wall", <<<<b[1][1], "1.0">>>>)>>]] :
         b \in {<<<<"root", "">>>>, <<<<"child", "root">>, <<"root", "">>>>,
                <<<<"a", "root">>, <<"b", "a">>, <<"c", "root">>, <<"root", "">>>>},
-        fr \in {1, 2}, tr \in 0..4}
+        fr \in {1, 2}, tr \in 0..5}
+    \cup {[feat |-> "plain", v |-> [bones |-> <<<<"kn{f6}chel", "root">>, <<"root", "">>>>, keys |-> <<"kn{f6}chel", "root">>,
+                                   frames |-> <<Frame(0, <<<<"kn{f6}chel", "root">>, <<"root", "">>>>, "0.0")>>, tris |-> <<>>]]}
 
 Tag(fmt, S) == {[fmt |-> fmt, feat |-> "plain", v |-> x] : x \in S}
 Cases == CASE Fmt = "cmdseq" -> Tag("cmdseq", CmdCases)
@@ -327,6 +346,9 @@ Cases == CASE Fmt = "cmdseq" -> Tag("cmdseq", CmdCases)
            [] Fmt = "vmt" -> {[fmt |-> "vmt", feat |-> c.feat, v |-> c.v] : c \in VmtCases}
            [] Fmt = "pcf" -> {[fmt |-> "pcf", feat |-> c.feat, v |-> c.v] : c \in PcfCases}
            [] Fmt = "smd" -> {[fmt |-> "smd", feat |-> c.feat, v |-> c.v] : c \in SmdCases}
+           \* the scenes.image string pool: character class x encoding argument x version x dict / list
+           [] Fmt = "imgenc" -> {[fmt |-> "imgenc", feat |-> ch, v |-> [enc |-> en, chars |-> ch, ver |-> ve, how |-> ho]] :
+                                   ch \in {"ascii", "latin1", "wide"}, en \in {"default", "latin1", "utf8"}, ve \in {2, 3}, ho \in {"dict", "list"}}
 NoCase == [fmt |-> "none", feat |-> "", v |-> [seqs |-> <<>>]]
 
 CaseNext == /\ ~done /\ done' = TRUE
